@@ -344,7 +344,7 @@ def run(tier, seed):
                 jobs.append(("PQ", cap, pol, dump, ex.submit(H.run_tlc, "PQ", "PQ.cap%d%s.cfg" % (cap, pol), workers=2, timeout=1500, extra=("-dump", "dot,actionlabels", dump), tag="pq%d%s" % (cap, pol))))
         for cap in [4] + ([5] if thorough else []):
             for pol in ("min", "max"):
-                jobs.append(("HeapImpl", cap, pol, None, ex.submit(H.run_tlc, "HeapImpl", "HeapImpl.cap%d%s.cfg" % (cap, pol), workers=4, timeout=3000, coverage=False, tag="hi%d%s" % (cap, pol))))
+                jobs.append(("HeapImpl", cap, pol, None, ex.submit(H.run_tlc, "HeapImpl", "HeapImpl.cap%d%s.cfg" % (cap, pol), workers=4, timeout=3000, coverage=True, tag="hi%d%s" % (cap, pol))))
         results = [(m, cap, pol, dump, f.result()) for (m, cap, pol, dump, f) in jobs]
     for m, cap, pol, dump, res in results:
         rep.add_tlc("%s Cap=%d Costs={0,1,2} %s" % (m, cap, pol), res)
